@@ -186,8 +186,11 @@ fn strategy(cap: usize, long: bool) -> BoxedStrategy<Case> {
             let n = flush_len(&cfg);
             let maxlen = if long { 3 * n + 1500 } else { 3 * n + 20 };
             let op = |pct: u32| prop_oneof![40 => inp_special(pct).prop_map(SOp::Next), 1 => Just(SOp::Reset), 2 => Just(SOp::Checkpoint)];
+            // magnitudes around 1e-158: the values are ordinary normal numbers, their squares are subnormal
+            let sq = || prop_oneof![40 => inp_finite().prop_map(|mut i| { let f = 1e-158; i.bar.o *= f; i.bar.h *= f; i.bar.l *= f; i.bar.c *= f; SOp::Next(i) }), 1 => Just(SOp::Reset), 2 => Just(SOp::Checkpoint)];
             let hist = prop_oneof![
                 4 => vec(op(0), 0..=maxlen),
+                1 => vec(sq(), 0..=maxlen),
                 1 => vec(op(12), 0..=maxlen),
                 2 => vec(op(0), 0..=(n.saturating_sub(1))),                   // warming up at the final checkpoint
                 2 => vec(inp_finite().prop_map(SOp::Next), n..=n),              // exactly full
